@@ -1,69 +1,79 @@
 (* C03 - the response does not depend on when resolvers complete: the SCHEDULING part.
    Model: Exec/Async.v - nondeterministic small-step completion of awaitables over an abstract
-   response tree (gather with cancellation, synchronous failure with orphaned siblings, error
-   propagation to the nearest nullable position, serial roots).  Proofs: Exec/AsyncProps.v.
-   [Exec root sched s evs]: from the synchronous part of execute() on [root], completing the
-   pending awaitables in the order [sched] (each pick must be pending) leads to state [s] with
-   the events [evs]; [final s]: nothing is pending.  The root is the nullable position `data`. *)
+   response tree (gather with cancellation, synchronous failure with abandoned siblings that go on
+   in the background, error propagation to the nearest nullable position, serial roots that wait for
+   the previous field AND the background work below it).  Proofs: Exec/AsyncProps.v.
+   [Exec lp root sched s evs]: from the synchronous part of execute() on [root] (lp: called inside a
+   running event loop), completing pending awaitables in the order [sched] (each pick must be pending)
+   leads to state [s] with the events [evs]; [final s]: the root position is done = the response is
+   delivered (background work may still be pending).  The root is the nullable position `data`. *)
 From GV Require Import Base.Prelude Exec.ErrorsAlg Exec.ErrorsAlgProps Exec.Async Exec.AsyncProps.
 
-(* (a) every schedule is finite: at most one step per awaitable position of the tree ... *)
-Theorem C03_async_terminates : forall root sched s evs,
-  Exec root sched s evs -> (length sched <= asyncs root)%nat.
+(* (a) every schedule is finite: at most one step per awaitable position of the tree (background work included) ... *)
+Theorem C03_async_terminates : forall lp root sched s evs,
+  Exec lp root sched s evs -> (length sched <= asyncs root)%nat.
 Proof.
-  intros root sched s evs H. pose proof (terminates _ _ _ _ H). pose proof (asyncs_eq root).
+  intros lp root sched s evs H. pose proof (terminates _ _ _ _ _ H). pose proof (asyncs_eq root).
   destruct (is_async root); lia.
 Qed.
 Print Assumptions C03_async_terminates.
 
-(* ... and a run that is not final can always continue with ANY pending awaitable (response keys unique) *)
-Theorem C03_async_progress : forall root sched s evs pi,
-  wfk root -> nonnull root = false -> Exec root sched s evs -> In pi (pend s) ->
-  exists s' e, complete pi s = Some (ROk s', e).
-Proof. intros root sched s evs pi Hw Hnn He. apply (progress s root pi); [exact (exec_rep _ _ _ _ He)|assumption|assumption]. Qed.
+(* ... a run whose response is not yet delivered has a pending awaitable, and ANY pending awaitable can be completed *)
+Theorem C03_async_progress : forall lp root sched s evs,
+  nonnull root = false -> Exec lp root sched s evs ->
+  (is_done s = false -> pend s <> []) /\
+  forall pi, In pi (pend s) -> exists s' e, complete pi s = Some (ROk s', e).
+Proof.
+  intros lp root sched s evs Hnn He. pose proof (exec_rep _ _ _ _ _ He) as HR. split.
+  - exact (rep_pending s root HR).
+  - intros pi. exact (progress s root pi HR Hnn).
+Qed.
 Print Assumptions C03_async_progress.
 
-(* (b) order independence: every complete schedule, for every sync/awaitable assignment, ends with the data
-   of the fully synchronous run; [data] distinguishes nulls placed by error handling ([DNull true]) from null
+(* (b) order independence: every schedule that delivers a response, for every sync/awaitable assignment, delivers the
+   data of the fully synchronous run; [data] distinguishes nulls placed by error handling ([DNull true]) from null
    values, so the positions nulled by errors in the data coincide as well *)
-Theorem C03_async_order_independent : forall root sched s evs,
-  nonnull root = false -> Exec root sched s evs -> final s ->
-  exists d esync,
-    s = SDone (key root) d /\ den root = Some d /\
-    sync_result root = (ROk (SDone (key root) d), esync).
+Theorem C03_async_order_independent : forall lp root sched s evs,
+  nonnull root = false -> Exec lp root sched s evs -> final s ->
+  exists d bg bgs esync,
+    s = SDone (key root) d bg /\ den root = Some d /\
+    sync_result root = (ROk (SDone (key root) d bgs), esync).
 Proof. exact order_independent. Qed.
 Print Assumptions C03_async_order_independent.
 
-Corollary C03_async_same_nulled_positions : forall root sched s evs d,
-  nonnull root = false -> Exec root sched s evs -> final s -> result_data s = Some d ->
-  exists dsync esync, sync_result root = (ROk (SDone (key root) dsync), esync) /\ dnulls d = dnulls dsync.
+Corollary C03_async_same_nulled_positions : forall lp root sched s evs d,
+  nonnull root = false -> Exec lp root sched s evs -> result_data s = Some d ->
+  exists ssync esync dsync, sync_result root = (ROk ssync, esync) /\ result_data ssync = Some dsync /\
+                            d = dsync /\ dnulls d = dnulls dsync.
 Proof.
-  intros root sched s evs d Hnn He Hf Hd.
-  destruct (order_independent _ _ _ _ Hnn He Hf) as (d' & es & -> & _ & Hs).
-  inversion Hd; subst. eauto.
+  intros lp root sched s evs d Hnn He Hd.
+  assert (Hf : final s) by (destruct s; try discriminate; reflexivity).
+  destruct (order_independent _ _ _ _ _ Hnn He Hf) as (d' & bg & bgs & es & -> & _ & Hs).
+  inversion Hd; subst. exists (SDone (key root) d bgs), es, d. auto.
 Qed.
 Print Assumptions C03_async_same_nulled_positions.
 
-(* two schedules (and two sync/awaitable assignments of the same tree) agree *)
-Corollary C03_async_confluent : forall root sched1 s1 evs1 sched2 s2 evs2,
+(* two schedules (and two sync/awaitable assignments of the same tree, inside or outside a running loop) agree *)
+Corollary C03_async_confluent : forall lp1 lp2 root sched1 s1 evs1 sched2 s2 evs2,
   nonnull root = false ->
-  Exec root sched1 s1 evs1 -> final s1 -> Exec root sched2 s2 evs2 -> final s2 -> s1 = s2.
+  Exec lp1 root sched1 s1 evs1 -> final s1 -> Exec lp2 root sched2 s2 evs2 -> final s2 ->
+  result_data s1 = result_data s2.
 Proof.
-  intros root sched1 s1 evs1 sched2 s2 evs2 Hnn H1 F1 H2 F2.
-  destruct (order_independent _ _ _ _ Hnn H1 F1) as (d1 & _ & -> & E1 & _).
-  destruct (order_independent _ _ _ _ Hnn H2 F2) as (d2 & _ & -> & E2 & _). congruence.
+  intros lp1 lp2 root sched1 s1 evs1 sched2 s2 evs2 Hnn H1 F1 H2 F2.
+  destruct (order_independent _ _ _ _ _ Hnn H1 F1) as (d1 & ? & ? & _ & -> & E1 & _).
+  destruct (order_independent _ _ _ _ _ Hnn H2 F2) as (d2 & ? & ? & _ & -> & E2 & _). cbn. congruence.
 Qed.
 Print Assumptions C03_async_confluent.
 
 (* (c) errors.  Every recorded (nulled position a, error path o): a is a nullable position of the tree, o = a ++ pi
    is a position that raises (or is null at a non-null position), every position strictly between is non-null ... *)
-Theorem C03_async_errors_are_raised : forall root sched s evs a o,
-  Exec root sched s evs -> In (a, o) (errs evs) ->
+Theorem C03_async_errors_are_raised : forall lp root sched s evs a o,
+  Exec lp root sched s evs -> In (a, o) (errs evs) ->
   exists ma pi, At root a ma /\ nonnull ma = false /\ Bad ma pi /\ o = a ++ pi.
 Proof. intros. eapply errors_characterised; eauto. Qed.
 Print Assumptions C03_async_errors_are_raised.
 
-(* ... EVERY raising position of the tree - reported under this schedule or not (cancelled, orphaned, never started) -
+(* ... EVERY raising position of the tree - reported under this schedule or not (cancelled, abandoned, never started) -
    lies at or below a position nulled in the data ... *)
 Theorem C03_async_raised_below_null : forall root d o m,
   den root = Some d -> At root o m -> raises m -> nulled (dnulls d) o = true.
@@ -71,33 +81,34 @@ Proof. exact raised_below_null. Qed.
 Print Assumptions C03_async_raised_below_null.
 
 (* ... the OUTERMOST recorded nulled positions are exactly the positions nulled in the data, hence the same for every
-   schedule and for the synchronous run (positions recorded below them may differ) ... *)
-Theorem C03_async_outermost_nulled : forall root sched s evs,
-  wfk root -> nonnull root = false -> Exec root sched s evs -> final s ->
-  exists d, s = SDone (key root) d /\ den root = Some d /\
+   schedule and for the synchronous run (positions recorded below them may differ; response keys unique) ... *)
+Theorem C03_async_outermost_nulled : forall lp root sched s evs,
+  wfk root -> nonnull root = false -> Exec lp root sched s evs -> final s ->
+  exists d bg, s = SDone (key root) d bg /\ den root = Some d /\
             forall p, outermost (nulled_positions evs) p <-> In p (dnulls d).
 Proof. exact outermost_nulled. Qed.
 Print Assumptions C03_async_outermost_nulled.
 
-Theorem C03_async_outermost_nulled_as_sync : forall root sched s evs ssync esync,
-  wfk root -> nonnull root = false -> Exec root sched s evs -> final s ->
+Theorem C03_async_outermost_nulled_as_sync : forall lp root sched s evs ssync esync,
+  wfk root -> nonnull root = false -> Exec lp root sched s evs -> final s ->
   sync_result root = (ROk ssync, esync) ->
   forall p, outermost (nulled_positions evs) p <-> outermost (nulled_positions esync) p.
 Proof. exact outermost_nulled_sync_async. Qed.
 Print Assumptions C03_async_outermost_nulled_as_sync.
 
-(* ... and every awaitable that was cancelled or left to the background lies at or below a recorded nulled position *)
-Theorem C03_async_dropped_below_null : forall root sched s evs p,
-  Exec root sched s evs -> In p (cancelled evs ++ orphaned evs) -> nulled (nulled_positions evs) p = true.
+(* ... and every awaitable that was cancelled or abandoned lies at or below a recorded nulled position
+   (so whatever abandoned work reports later is dropped by CollectedErrors.add: Exec/ErrorsAlg.v) *)
+Theorem C03_async_dropped_below_null : forall lp root sched s evs p,
+  Exec lp root sched s evs -> In p (cancelled evs ++ orphaned evs) -> nulled (nulled_positions evs) p = true.
 Proof. intros. eapply dropped_covered; eauto. Qed.
 Print Assumptions C03_async_dropped_below_null.
 
-(* (d) well-formedness of every final response: no null at a non-null position (wfd), every reported error path ends
+(* (d) well-formedness of every delivered response: no null at a non-null position (wfd), every reported error path ends
    at or below a null placed by error handling, every such null has a reported error at or below it, data is null
    iff an error reached the root *)
-Theorem C03_async_wellformed : forall root sched s evs,
-  nonnull root = false -> Exec root sched s evs -> final s ->
-  exists d, s = SDone (key root) d /\
+Theorem C03_async_wellformed : forall lp root sched s evs,
+  nonnull root = false -> Exec lp root sched s evs -> final s ->
+  exists d bg, s = SDone (key root) d bg /\
     wfd root d = true /\
     (forall o, In o (error_paths evs) -> nulled (dnulls d) o = true) /\
     (forall p, In p (dnulls d) -> exists o, In (p, o) (errs evs) /\ prefixb p o = true) /\
@@ -106,26 +117,26 @@ Proof. exact response_wellformed. Qed.
 Print Assumptions C03_async_wellformed.
 
 (* (e) serial root fields (execute_fields_serially): [fields evs] = the root field of every event of the run in time
-   order - resolver invocations, completions of awaitables, recorded errors, cancellations and orphanings of the whole
-   subtree; [Ord K l]: l is a block of K's first key, then a block of the next, ... : every event of root field i comes
-   before every event of root field i+1.  (Awaitables ORPHANED by a synchronous failure are not stepped by the model:
-   what they do later in the implementation is outside this statement - see the finding recorded by harness/casync.py.) *)
-Theorem C03_async_serial_order : forall k nn a ks sched s evs,
-  Exec (Node k nn a (OKids KSer) ks) sched s evs -> Ord (map key ks) (fields evs).
+   order - resolver invocations, completions of awaitables, recorded and dropped errors, cancellations, abandoned
+   awaitables, of the whole subtree INCLUDING the background work abandoned siblings go on doing; [Ord K l]: l is a block
+   of K's first key, then a block of the next, ...: every event of root field i comes before every event of field i+1 *)
+Theorem C03_async_serial_order : forall lp k nn a ks sched s evs,
+  Exec lp (Node k nn a (OKids KSer) ks) sched s evs -> Ord (map key ks) (fields evs).
 Proof. exact serial_order. Qed.
 Print Assumptions C03_async_serial_order.
 
-Corollary C03_async_serial_no_overlap : forall k nn a ks sched s evs l1 x l2 y l3,
-  Exec (Node k nn a (OKids KSer) ks) sched s evs ->
+Corollary C03_async_serial_no_overlap : forall lp k nn a ks sched s evs l1 x l2 y l3,
+  Exec lp (Node k nn a (OKids KSer) ks) sched s evs ->
   fields evs = l1 ++ x :: l2 ++ y :: l3 -> x = y \/ before (map key ks) x y.
 Proof. exact serial_no_overlap. Qed.
 Print Assumptions C03_async_serial_no_overlap.
 
-(* every reachable state of a serial root: finished, or finished fields ++ ONE field in progress ++ fields not started *)
-Theorem C03_async_serial_one_at_a_time : forall k nn a ks sched s evs,
-  Exec (Node k nn a (OKids KSer) ks) sched s evs ->
+(* every reachable state of a serial root: done, or fields that are done with nothing pending below them ++ ONE field
+   at work (running, or done with background work pending below it) ++ fields not started *)
+Theorem C03_async_serial_one_at_a_time : forall lp k nn a ks sched s evs,
+  Exec lp (Node k nn a (OKids KSer) ks) sched s evs ->
   is_done s = true \/
-  exists pre x rest, s = SRun k nn KSer (pre ++ [x]) rest /\ all_done pre = true /\
+  exists pre x rest, s = SRun k nn KSer (pre ++ [x]) rest /\ all_settled pre = true /\
                      exists ks1, ks = ks1 ++ rest /\ map skey (pre ++ [x]) = map key ks1.
 Proof. exact serial_one_at_a_time. Qed.
 Print Assumptions C03_async_serial_one_at_a_time.
@@ -143,7 +154,7 @@ Definition ex_tree : node :=
 
 (* y first: both errors reported; x first: y is cancelled; same data *)
 Example C03_async_example :
-  exists s0 e0, init ex_tree = (ROk s0, e0) /\
+  exists s0 e0, init false ex_tree = (ROk s0, e0) /\
     (let '(s, e, _) := exec s0 [[1; 2]; [1; 1]; [2]] in
      result_data s = Some (DKids KObj [(1, DNull true); (2, DLeaf 7)]) /\
      errs e = [([1; 2], [1; 2]); ([1], [1; 1])] /\ cancelled e = []) /\
@@ -152,13 +163,18 @@ Example C03_async_example :
      errs e = [([1], [1; 1])] /\ cancelled e = [[1; 2]]).
 Proof. eexists _, _. split; [reflexivity|]. split; vm_compute; repeat split. Qed.
 
-(* mutation { m1 (awaitable) { x (awaitable) }  m2 { y (awaitable) } }: m2 is invoked only after m1.x completed *)
+(* mutation { m1 (awaitable) { x (awaitable) { z }  y: String! (raises synchronously) }  m2 { w } }:
+   when m1's value arrives, y fails synchronously next to the pending x: m1 becomes null and x is abandoned, but m2 is
+   invoked only after x - and the resolver z below it - have run in the background *)
 Example C03_async_serial_example :
   let t := Node 0 false false (OKids KSer)
-             [ Node 1 false true (OKids KObj) [ Node 1 false true (OLeaf 1) [] ];
-               Node 2 false false (OKids KObj) [ Node 1 false true (OLeaf 2) [] ] ] in
-  exists s0 e0, init t = (ROk s0, e0) /\ calls e0 = [[1]] /\
-    (let '(s, e, sk) := exec s0 [[1]; [2; 1]; [1; 1]; [2; 1]] in
-     sk = [[2; 1]] /\ fields (e0 ++ e) = [1; 1; 1; 1; 2; 2; 2] /\
-     result_data s = Some (DKids KSer [(1, DKids KObj [(1, DLeaf 1)]); (2, DKids KObj [(1, DLeaf 2)])])).
+             [ Node 1 false true (OKids KObj)
+                 [ Node 1 false true (OKids KObj) [ Node 1 false false (OLeaf 1) [] ]; Node 2 true false ORaise [] ];
+               Node 2 false false (OKids KObj) [ Node 1 false false (OLeaf 2) [] ] ] in
+  exists s0 e0, init false t = (ROk s0, e0) /\ calls e0 = [[1]] /\
+    (let '(s, e, sk) := exec s0 [[1]] in
+     sk = [] /\ is_done s = false /\ calls e = [[1; 1]; [1; 2]] /\ orphaned e = [[1; 1]] /\ errs e = [([1], [1; 2])]) /\
+    (let '(s, e, sk) := exec s0 [[1]; [1; 1]] in
+     sk = [] /\ calls e = [[1; 1]; [1; 2]; [1; 1; 1]; [2]; [2; 1]] /\
+     result_data s = Some (DKids KSer [(1, DNull true); (2, DKids KObj [(1, DLeaf 2)])])).
 Proof. eexists _, _. split; [reflexivity|]. vm_compute. repeat split. Qed.
